@@ -58,8 +58,16 @@ class TLCResult:
 
 
 def scratch_dir(prefix="mtverif_"):
+    """A scratch directory that is gone when the process that asked for it ends (worker processes of a pool included:
+    multiprocessing runs Finalize objects where atexit handlers are skipped)."""
     base = os.environ.get("VERIF_SCRATCH") or tempfile.gettempdir()
-    return tempfile.mkdtemp(prefix=prefix, dir=base)
+    d = tempfile.mkdtemp(prefix=prefix, dir=base)
+    try:
+        from multiprocessing import util
+        util.Finalize(None, shutil.rmtree, args=(d, True), exitpriority=1)
+    except Exception:
+        pass
+    return d
 
 
 def run_apalache(root, init, inv, length, timeout=900, next_=None):
@@ -102,7 +110,8 @@ def run_tlc(root, cfg=None, cfg_text=None, extra_files=None, env=None, workers=1
             cfgname = root + "_gen.cfg"
             with open(os.path.join(d, cfgname), "w") as fh:
                 fh.write(cfg_text)
-        cmd = ["java", "-XX:+UseParallelGC" if workers > 1 else "-XX:+UseSerialGC", "-Xmx" + xmx, "-Xss16m"]
+        cmd = ["java", "-XX:+UseParallelGC" if workers > 1 else "-XX:+UseSerialGC", "-Xmx" + xmx, "-Xss16m",
+               "-Djava.io.tmpdir=" + d]        # (TLC makes a tlc-<n> directory of its own per run: keep it inside ours)
         if deque:
             cmd.append("-Dtlc2.tool.queue.IStateQueue=StateDeque")
         cmd += ["-cp", JAR, "tlc2.TLC", "-workers", str(workers), "-metadir", os.path.join(d, "states"),
